@@ -57,6 +57,38 @@ Proof.
   intros Hin. apply nat_mem_In in Hin. rewrite Hin in H1. discriminate.
 Qed.
 
+Lemma dfs_desc d : forall fuel m acc x, In x (dfs d fuel m acc) -> In x acc \/ desc d m x.
+Proof.
+  induction fuel as [|f IH]; intros m acc x; simpl; destruct (nat_mem m acc); auto.
+  intros [<-|Hin]; [right; constructor|].
+  assert (G : forall ks a, In x (fold_left (fun a c => dfs d f c a) ks a) -> In x a \/ exists c, In c ks /\ desc d c x).
+  { induction ks as [|c ks IHks]; intros a Hx; simpl in Hx; [left; exact Hx|].
+    apply IHks in Hx. destruct Hx as [Hx|[c' [Hc' Dc']]].
+    - apply IH in Hx. destruct Hx as [Hx|Hx]; [left; exact Hx|right; exists c; split; [left; reflexivity|exact Hx]].
+    - right. exists c'. split; [right; exact Hc'|exact Dc']. }
+  apply G in Hin. destruct Hin as [Hin|[c [Hc Dc]]]; [left; exact Hin|right; econstructor; eassumption].
+Qed.
+
+Lemma export_order_desc d tops x : In x (export_order d tops) -> exists t, In t tops /\ desc d t x.
+Proof.
+  unfold export_order. rewrite <- in_rev.
+  assert (G : forall l a, In x (fold_left (fun a t => dfs d (S t) t a) l a) -> In x a \/ exists t, In t l /\ desc d t x).
+  { induction l as [|t l IHl]; intros a Hx; cbn [fold_left] in Hx; [left; exact Hx|].
+    apply IHl in Hx. destruct Hx as [Hx|[t' [Ht' Dt']]].
+    - apply dfs_desc in Hx. destruct Hx as [Hx|Hx]; [left; exact Hx|right; exists t; split; [left; reflexivity|exact Hx]].
+    - right. exists t'. split; [right; exact Ht'|exact Dt']. }
+  intros Hx. apply G in Hx. destruct Hx as [[]|Hx]. exact Hx.
+Qed.
+
+Lemma desc_below d t x : WF d -> desc d t x -> x <= t.
+Proof. intros W D. induction D as [m|m c x Hc _ IH]; [lia|]. pose proof (W m c Hc). lia. Qed.
+
+Lemma desc_ext d d' t x : WF d -> (forall m, m <= t -> kids d' m = kids d m) -> desc d t x -> desc d' t x.
+Proof.
+  intros W K D. induction D as [m|m c x Hc D IH]; [constructor|].
+  apply (desc_step d' m c x); [rewrite K by lia; exact Hc|]. apply IH. intros y Hy. apply K. pose proof (W m c Hc). lia.
+Qed.
+
 Ltac splits := lazymatch goal with |- _ /\ _ => split; [|splits] | _ => idtac end.
 
 Section Proofs.
@@ -407,28 +439,7 @@ Section Proofs.
     intros I D. induction D as [m|m c x Hc _ IH]; [lia|]. pose proof (i_kids st I m c Hc). lia.
   Qed.
 
-  Lemma dfs_desc d : forall fuel m acc x, In x (dfs d fuel m acc) -> In x acc \/ desc d m x.
-  Proof.
-    induction fuel as [|f IH]; intros m acc x; simpl; destruct (nat_mem m acc); auto.
-    intros [<-|Hin]; [right; constructor|].
-    assert (G : forall ks a, In x (fold_left (fun a c => dfs d f c a) ks a) -> In x a \/ exists c, In c ks /\ desc d c x).
-    { induction ks as [|c ks IHks]; intros a Hx; simpl in Hx; [left; exact Hx|].
-      apply IHks in Hx. destruct Hx as [Hx|[c' [Hc' Dc']]].
-      - apply IH in Hx. destruct Hx as [Hx|Hx]; [left; exact Hx|right; exists c; split; [left; reflexivity|exact Hx]].
-      - right. exists c'. split; [right; exact Hc'|exact Dc']. }
-    apply G in Hin. destruct Hin as [Hin|[c [Hc Dc]]]; [left; exact Hin|right; econstructor; eassumption].
-  Qed.
 
-  Lemma export_order_desc d tops x : In x (export_order d tops) -> exists t, In t tops /\ desc d t x.
-  Proof.
-    unfold export_order. rewrite <- in_rev.
-    assert (G : forall l a, In x (fold_left (fun a t => dfs d (S t) t a) l a) -> In x a \/ exists t, In t l /\ desc d t x).
-    { induction l as [|t l IHl]; intros a Hx; cbn [fold_left] in Hx; [left; exact Hx|].
-      apply IHl in Hx. destruct Hx as [Hx|[t' [Ht' Dt']]].
-      - apply dfs_desc in Hx. destruct Hx as [Hx|Hx]; [left; exact Hx|right; exists t; split; [left; reflexivity|exact Hx]].
-      - right. exists t'. split; [right; exact Ht'|exact Dt']. }
-    intros Hx. apply G in Hx. destruct Hx as [[]|Hx]. exact Hx.
-  Qed.
 
   (* after a call, the package of its tops is the canonical one *)
   Lemma package_canonical st tops : Inv st -> (forall t, In t tops -> s_stage st t = P) ->
@@ -523,5 +534,46 @@ Section Proofs.
     - intros x. pose proof (M1 x). pose proof (M2 x). lia.
     - intros m Hm. rewrite K2 by lia. apply K1. exact Hm.
     - lia.
+  Qed.
+
+  (* ---------------------------------------------------------------- reachable states: any history without accepted edits *)
+  Inductive reachable (d : design) : state -> Prop :=
+  | r_init : reachable d (init_state d)
+  | r_step st o : reachable d st -> no_edit (snd (step st o)) -> reachable d (fst (step st o)).
+
+  Lemma run_reachable d : forall h st, reachable d st -> no_edits (snd (run st h)) -> reachable d (fst (run st h)).
+  Proof.
+    induction h as [|o h IH]; intros st R NE; cbn [C07PassMgr.run] in *; [exact R|].
+    destruct (step st o) as [st1 r] eqn:E1. destruct (run st1 h) as [st2 rs] eqn:E2. cbn [fst snd] in *.
+    destruct NE as [NE1 NE2].
+    assert (R1 : reachable d st1).
+    { replace st1 with (fst (step st o)) by (rewrite E1; reflexivity). constructor; [exact R|]. rewrite E1. exact NE1. }
+    specialize (IH st1 R1). rewrite E2 in IH. apply IH. exact NE2.
+  Qed.
+
+  Lemma reachable_inv d st : WF d -> reachable d st -> Inv st.
+  Proof.
+    intros W R. induction R as [|st o R IH NE]; [apply inv_init; exact W|].
+    apply (step_ok st o IH NE).
+  Qed.
+
+  Lemma LogOK_nodup d l : LogOK d l -> NoDup (log_keys l).
+  Proof. intros L. induction L; [constructor|]. rewrite log_keys_cons. constructor; assumption. Qed.
+
+  (* a call brings its tops, hence everything below them, to the end of the pass list *)
+  Lemma call_completes st tops t x : Inv st -> all_below (length (s_design st)) tops = true ->
+    In t tops -> desc (s_design st) t x ->
+    Inv (elab_call tops st) /\ s_design (elab_call tops st) = s_design st /\ s_stage (elab_call tops st) x = P.
+  Proof.
+    intros I A Ht D. destruct (elab_call_ok tops st I (all_below_spec _ _ A)) as (I1 & D1 & S1 & _).
+    splits; auto. rewrite <- D1 in D. pose proof (desc_stage _ t x I1 D). pose proof (S1 t Ht). pose proof (i_le _ I1 x). lia.
+  Qed.
+
+
+
+  Lemma in_log_exists k m (l : list keyed) : In (k, m) (log_keys l) -> exists vs, In (k, m, vs) l.
+  Proof.
+    unfold C07PassMgr.log_keys. intros H. apply in_map_iff in H. destruct H as [[[k' m'] vs] [E Hin]].
+    simpl in E. inversion E. subst. exists vs. exact Hin.
   Qed.
 End Proofs.
